@@ -441,7 +441,8 @@ where
             };
             let Some(r) = find_row::<F, EF>(&m, &vals1[mu.op], D) else { return bad("row of op not found".into()) };
             if r == 0 {
-                return bad("chain starts on row 0 (no separator row)".into());
+                // the chain is scheduled on the first row: there is no separator row whose `out` could be altered
+                return out("not_applicable", cover);
             }
             m.values[(r - 1) * width + 3 * D + mu.coeff] += delta;
             // intermediates of a packed first row were computed by trace_to_matrix from prev_out = 0
